@@ -36,6 +36,8 @@ type c20 struct {
 	at       int
 	acted    bool
 	pausedOK bool
+	heldAt   int64 // the responder holds the disturbed sibling's response from this block on (0: it does not)
+	held     bool
 }
 
 func newC20() Scenario { return &c20{} }
@@ -120,8 +122,23 @@ func (s *c20) Build(w *World) {
 	s.victim = -1
 	if t.Chance(400) {
 		s.victim = t.Draw(n)
-		s.how = []string{"cancel", "pause", "refuse", "refuse"}[t.Draw(4)]
+		s.how = []string{"cancel", "pause", "refuse", "refuse", "held-cancel", "held-cancel"}[t.Draw(6)]
 		s.at = t.Draw(60)
+	}
+	if s.how == "held-cancel" {
+		// the responder's operator holds that sibling's response (a block hook pauses it at a drawn block); its
+		// caller cancels it while it is held
+		s.how = "cancel"
+		vid := s.reqs[s.victim].ID
+		k := int64(1 + t.Draw(5))
+		s.heldAt = k
+		s.b.OnOutgoingBlock = func(p peer.ID, r graphsync.RequestData, b graphsync.BlockData, a graphsync.OutgoingBlockHookActions) {
+			if r.ID() == vid && b.Index() >= k && !s.held {
+				s.held = true
+				w.Probe("c20-sibling-held-at-responder")
+				a.PauseResponse()
+			}
+		}
 	}
 	if s.how == "refuse" {
 		// the caller's response hook refuses that sibling's responses (an application-level rejection):
@@ -144,7 +161,7 @@ func (s *c20) Build(w *World) {
 		}
 		if s.victim >= 0 && !s.acted && s.how != "refuse" {
 			r := s.reqs[s.victim]
-			if r.Returned && !r.Done() && w.Step >= s.at {
+			if r.Returned && !r.Done() && w.Step >= s.at && (s.heldAt == 0 || s.held) {
 				evs = append(evs, Inject("api", "act|A|"+r.Label+"|"+s.how, func(string) {
 					s.acted = true
 					w.Probe("c20-sibling-" + s.how)
@@ -173,6 +190,7 @@ func (s *c20) NextPhase(w *World, phase int) bool {
 	r := s.reqs[s.victim]
 	w.Sync(func() {
 		w.Effect("heal: cancel %s", r.Label)
+		s.acted = true
 		r.Cancel()
 	})
 	return true
@@ -181,7 +199,7 @@ func (s *c20) NextPhase(w *World, phase int) bool {
 func (s *c20) Describe(w *World) string {
 	d := ""
 	if s.victim >= 0 {
-		d = fmt.Sprintf(" disturbed=r%d:%s@%d", s.victim, s.how, s.at)
+		d = fmt.Sprintf(" disturbed=r%d:%s@%d held-at-block=%d", s.victim, s.how, s.at, s.heldAt)
 	}
 	return fmt.Sprintf("dag=%d split=%s reqs=%s%s", len(s.dag.Order), s.split.String(s.dag), strings.Join(s.descs, " | "), d)
 }
@@ -356,10 +374,18 @@ func (s *c20) lossTag(w *World, r *Req) string {
 			}
 		}
 	}
-	for _, m := range miss {
-		short := strings.SplitN(m, "@", 2)[0]
+	// (by full CID: two blocks with the same bytes under different codecs share the short form)
+	var missCids []cid.Cid
+	for _, e := range r.Errs {
+		if m, ok := e.(graphsync.RemoteMissingBlockErr); ok {
+			if cl, ok := m.Link.(cidlink.Link); ok {
+				missCids = append(missCids, cl.Cid)
+			}
+		}
+	}
+	for _, mc := range missCids {
 		for _, e := range own.Entries {
-			if shortCid(e.Cid) != short || e.Action != graphsync.LinkActionPresent || e.HasBlock {
+			if !e.Cid.Equals(mc) || e.Action != graphsync.LinkActionPresent || e.HasBlock {
 				continue
 			}
 			// was a sibling of the same scope that had been sent the block still in progress at the responder?
@@ -367,9 +393,24 @@ func (s *c20) lossTag(w *World, r *Req) string {
 				if o == r || s.inKey[o.ID] != s.inKey[r.ID] {
 					continue
 				}
+				// (a sibling its caller cancelled gets no terminal status: it is over at the responder once the
+				// responder has reported the cancel, which is compared with the step at which this request's
+				// traversal reached the link)
+				goneAt := 1 << 30
+				for _, cv := range s.b.Cancelled {
+					if cv.Req == o.ID && cv.Step < goneAt {
+						goneAt = cv.Step
+					}
+				}
+				reached := -1
+				for _, h := range s.b.OutBlocks {
+					if h.Req == r.ID && h.Index == int64(e.Index) {
+						reached = h.Step
+					}
+				}
 				for _, x := range ResponderOutput(wire, o.ID).Entries {
 					if x.Cid == e.Cid && x.Action == graphsync.LinkActionPresent && x.Msg <= e.Msg {
-						if t, done := term[o.ID]; !done || t >= e.Msg {
+						if t, done := term[o.ID]; (!done || t >= e.Msg) && !(reached >= 0 && goneAt < reached) {
 							return ":present-not-sent-to-this-request"
 						}
 					}
